@@ -614,7 +614,13 @@ def rule_schedules(chk, prog, sizes=(2, 4, 6, 8)):
     v1 = not_reversed(v)
     ok1 = v1.k == 'phi' and '== 1' in sym.show(v1.a[0]) and match.einsum_parts(v1.a[1]) is not None and list(v1.a[1].a[1]) == [S('einsum_spec'), S('lhs'), S('rhs')]
     chk.check(ok1, rule, f'{site}: a single shard reduces to the plain einsum(spec, lhs, rhs)', sym.show(v1.a[1])[:120] if v1.k == 'phi' else 'n/a', loc)
-  # reversed argument order swaps operands and the two input subscripts together
+  check_reversed_einsum(chk, prog, rule)
+  chk.at_least(rule, 13)
+
+
+
+def check_reversed_einsum(chk, prog, rule):
+  """Reversed argument order swaps operands and the two input subscripts together."""
   g = prog.func(f'{JU}._reversed_arg_order_einsum')
   ev = sym.Evaluator(prog, sym.Options(std_opaque=False))
   v, _, _ = ev.run(g)
@@ -624,7 +630,6 @@ def rule_schedules(chk, prog, sizes=(2, 4, 6, 8)):
     txt = [sym.show(p) if isinstance(p, Term) else p for p in parts]
     ok = len([p for p in parts if isinstance(p, Term)]) == 3 and txt[1] == ',' and txt[3] == '->' and '[1]' in txt[0] and '[0]' in txt[2] and "split(',')" in txt[0] and "split('->')[1]" in txt[4]
   chk.check(ok, rule, f'{JU}._reversed_arg_order_einsum: einsum(f"{{rhs}},{{lhs}}->{{out}}", y, x) — operands and their subscripts are exchanged together', sym.show(v)[:200], (g.file, g.lineno))
-  chk.at_least(rule, 13)
 
 
 # ----------------------------------------------------------------- cumsum
